@@ -27,6 +27,7 @@ C18 driver.  Protocol (harness/src/c18.rs):
   graph <type> <dir|undir> tn=<idx:wid,…> te=<a:b:wid,…>     nodes / edges by construction
   iter nodes=<idx:wid:attr;…> edges=<s:t:wid:attr;…>         what node_references() / edge_references() yield
   dot cfg=<Config,…> kind=<0..3> alt=<0|1> spec=<id> attrs=<0|1>  => <code points of the text | panic>
+  law <name> <params…>  => ok | VIOLATED <why>      a law the harness checks against the implementation itself
 
 Exact part: the mirror models `G6.encode` (through `G6.adjMatrix`/`G6.isAdjacent` for the bitmap types),
 `G6.decode` behind the guard `G6.decodePanics` (= `G6.decodeGuarded`, proved equal to `G6.decode`; a huge claimed order is
@@ -435,6 +436,12 @@ def step (d : DState) (req : List String) (impl : String) : DState × String :=
       | _ => none
     ({ d with itNodes := ns, itEdges := es }, "ok")
   | "dot" :: _ => (d, dotStep d req impl)
+  -- a LAW checked by the harness against the implementation itself (`law <name> … => ok | VIOLATED <why>`):
+  -- `dot-format-spec-ignored` (width / precision / fill / sign / zero flags of the outer format spec do not change the
+  -- text), `graph6-free-function` (`graph6_string()` = `get_graph6_representation(&g)`), `dot-over-adaptor` (Reversed /
+  -- NodeFiltered print the adaptor's graph), `config-std-traits`
+  | "law" :: name :: _ =>
+    (d, if impl == "ok" then "ok" else s!"SPECFAIL law {name} does not hold: {impl}")
   | _ => (d, s!"SPECFAIL bad request {req}")
 
 end PetgraphModel.C18
